@@ -602,6 +602,17 @@ def obInv (s : State) : Bool :=
   !hasDup (s.bets.map (·.id)) &&
   s.books.all (fun b => b.pairs.all (fun x => s.bets.any (fun t => t.id == x.2)))
 
+/-- the decidable part of `SubInv` (SgeProofs/Properties/C16.lean) on the addresses the stores can be non-empty at:
+    subaccount addresses up to the id counter, owners among the given candidates -/
+def subInvB (s : Subaccount.State) (owners : List Nat) : Bool :=
+  let addrs := (List.range (s.nextId + 1)).map Subaccount.addrOf
+  s.nextId != 0 &&
+  addrs.all (fun a => (s.subMap a).isSome == (s.subs a).isSome) &&
+  (s.subMap (Subaccount.addrOf s.nextId)).isNone &&
+  addrs.all (fun a => match s.subMap a with | some o => s.ownerMap o == some a | none => true) &&
+  (owners ++ addrs).all (fun o => match s.ownerMap o with | some a => s.subMap a == some o | none => true) &&
+  addrs.all (fun a => match s.subs a with | some sub => !hasDup (sub.locks.map (·.1)) | none => true)
+
 def sortedIds : List Ovm.Proposal → Bool
   | [] => true
   | p :: ps => ps.all (fun q => decide (p.id < q.id)) && sortedIds ps
